@@ -134,6 +134,8 @@ TABLE.update({
     "c02_literal_mixed_drops_constants.diff": ("contracts.c02", "lower_bundle_literal", "elements: const, computed"),
     "c02_literal_nested_members_lost.diff": ("contracts.c02", "lower_bundle_literal", "elements: nested, computed"),
     "c02_literal_constant_value_zero.diff": ("contracts.c02", "lower_bundle_literal", "elements: const, const"),
+    "c02_all_lowered_as_anything.diff": ("contracts.c02", "lower_bundle_all", None),
+    "c02_select_reads_each.diff": ("contracts.c02", "lower_bundle_select", None),
     "c08_preserved_shares_network_zero.diff": ("contracts.c12", "_restore_preserved_connection", None),
     "c08_preserved_routing_failure_ignored.diff": ("contracts.c12", "_restore_preserved_connection", None),
     "c08_preserved_span_doubled.diff": ("contracts.c12", "_restore_preserved_connection", None),
